@@ -22,6 +22,12 @@ early", and the run is a deterministic function of (scenario, schedule).
 Blocking operations (Queue.get/put, Event.wait, sleep, Thread.join, the stub
 server's select/shutdown/close) are modelled as ``block(predicate, timeout)``;
 time is virtual.
+
+The stub server starts one controlled handler thread per accepted connection
+(socketserver.ThreadingMixIn); ``run_handler`` runs the handler class that was
+given to ``make_server`` on a ``StubSocket``.  The sender (``client_request``)
+continues as soon as the complete response has been written, the handler
+thread goes on independently.
 """
 
 import errno
